@@ -10,6 +10,7 @@ Drivers:
 import hashlib
 import socket
 import threading
+import time
 
 from . import refber as rb
 from . import refusm as ru
@@ -331,6 +332,9 @@ class AgentThread(threading.Thread):
         self.received.append(d)
         try:
             for out in self.handler(d) or []:
+                if isinstance(out, float):  # a pause before the next datagram of the burst
+                    time.sleep(out)
+                    continue
                 self.sock.sendto(out, a)
         except Exception as e:  # harness bug: surface it, never swallow
             import traceback
